@@ -553,6 +553,12 @@ func (m *Manager) ReloadSSTables() error {
 
 // RotateWAL creates a new WAL file and closes the old one
 func (m *Manager) RotateWAL() error {
+	// The flush path rotates under flushMu without m.mu: take flushMu too, so
+	// that two rotations never run at once and seed their new logs from the
+	// same old one
+	m.flushMu.Lock()
+	defer m.flushMu.Unlock()
+
 	m.mu.Lock()
 	defer m.mu.Unlock()
 
